@@ -203,17 +203,20 @@ Clauses == {"AcceptValid", "RejectInvalid", "RaisesValidationError", "NormalForm
             "ClassMatchesTag", "ModesAgree", "DumpRevalidateEqual",
             "Drift/ImplOutcome"}       \* not a verdict: the code still is the chain transcribed in Impl (reported as MODEL-DRIFT)
 Acc(r) == r.res = "ok"
+\* what a run observed, without the name of the entry point (most runs of a case observe the same)
+Sig(r) == [res |-> r.res, verr |-> r.verr, cls |-> r.cls, tag |-> r.tag, coords |-> r.coords,
+           eq |-> r.eq, cls2 |-> r.cls2, coords2 |-> r.coords2]
 Holds(cl, o) ==
-    LET k == o.in.kind  s == o.in.toks  R == o.out.runs IN
-    CASE cl = "AcceptValid"   -> ValidStrict(k, s) => \A i \in DOMAIN R : Acc(R[i])
+    LET k == o.in.kind  s == o.in.toks  R == {Sig(o.out.runs[i]) : i \in DOMAIN o.out.runs} IN
+    CASE cl = "AcceptValid"   -> ValidStrict(k, s) => \A r \in R : Acc(r)
       \* otherwise an error is raised and no object exists (anything but an exception is an object)
-      [] cl = "RejectInvalid" -> ~ValidLoose(k, s) => \A i \in DOMAIN R : R[i].res = "raise"
+      [] cl = "RejectInvalid" -> ~ValidLoose(k, s) => \A r \in R : r.res = "raise"
       \* ... and the error is a validation error (pydantic.ValidationError is a ValueError)
-      [] cl = "RaisesValidationError" -> \A i \in DOMAIN R : R[i].res = "raise" => R[i].verr
-      [] cl = "NormalForm"    -> \A i \in DOMAIN R : Acc(R[i]) => NormalFormObs(k, R[i].coords)
-      [] cl = "NormalOfInput" -> ValidLoose(k, s) => \A i \in DOMAIN R : Acc(R[i]) => R[i].coords \in AllowedNormals(k, s)
-      [] cl = "ClassMatchesTag" -> \A i \in DOMAIN R : Acc(R[i]) => R[i].cls = k /\ R[i].tag = k
-      [] cl = "ModesAgree"    -> \A i, j \in DOMAIN R : Acc(R[i]) = Acc(R[j]) /\ R[i].cls = R[j].cls
-      [] cl = "Drift/ImplOutcome" -> LET m == Impl(k, s) IN \A i \in DOMAIN R : (Acc(R[i]) <=> m.ok) /\ (Acc(R[i]) => R[i].coords = m.val)
-      [] cl = "DumpRevalidateEqual" -> \A i \in DOMAIN R : Acc(R[i]) => R[i].eq = "equal" /\ R[i].cls2 = R[i].cls /\ R[i].coords2 = R[i].coords
+      [] cl = "RaisesValidationError" -> \A r \in R : r.res = "raise" => r.verr
+      [] cl = "NormalForm"    -> \A r \in R : Acc(r) => NormalFormObs(k, r.coords)
+      [] cl = "NormalOfInput" -> (\E r \in R : Acc(r)) => (ValidLoose(k, s) => \A r \in R : Acc(r) => r.coords \in AllowedNormals(k, s))
+      [] cl = "ClassMatchesTag" -> \A r \in R : Acc(r) => r.cls = k /\ r.tag = k
+      [] cl = "ModesAgree"    -> \A r1, r2 \in R : Acc(r1) = Acc(r2) /\ r1.cls = r2.cls
+      [] cl = "Drift/ImplOutcome" -> LET m == Impl(k, s) IN \A r \in R : (Acc(r) <=> m.ok) /\ (Acc(r) => r.coords = m.val)
+      [] cl = "DumpRevalidateEqual" -> \A r \in R : Acc(r) => r.eq = "equal" /\ r.cls2 = r.cls /\ r.coords2 = r.coords
 =============================================================================
